@@ -42,6 +42,42 @@ package ast
 //@ axiom wfObjectLiteral(x *ObjectLiteral): WFNode(iface(x)) ==> forallkey(x.Pairs, k, WFN(x.Pairs[k]))
 //@ axiom wfArrayLiteral(x *ArrayLiteral): WFNode(iface(x)) ==> forall(k, 0, len(x.Elements), WFN(x.Elements[k]))
 
+// introduction rules (the converse direction), used by the parser to establish WFNode for the
+// node it has just built; one per node type, same body as the unfolding rule above
+//@ axiom wfProgramI(p *Program): p != nil && forall(k, 0, len(p.Statements), WFN(p.Statements[k])) ==> WFNode(iface(p))
+//@ axiom wfExpressionStmtI(s *ExpressionStmt): s != nil && WFN(s.Expression) ==> WFNode(iface(s))
+//@ axiom wfIfStmtI(s *IfStmt): s != nil && WFN(s.Condition) && s.Consequence != nil && WFNode(iface(s.Consequence)) && (s.Alternative != nil ==> WFNode(iface(s.Alternative))) && forall(k, 0, len(s.Alternatives), s.Alternatives[k] != nil && WFN(s.Alternatives[k].Condition) && s.Alternatives[k].Consequence != nil && WFNode(iface(s.Alternatives[k].Consequence))) ==> WFNode(iface(s))
+//@ axiom wfBlockStmtI(b *BlockStmt): b != nil && forall(k, 0, len(b.Statements), WFN(b.Statements[k])) ==> WFNode(iface(b))
+//@ axiom wfAssignStmtI(s *AssignStmt): s != nil && s.Name != nil && WFN(s.Value) ==> WFNode(iface(s))
+//@ axiom wfUseStmtI(s *UseStmt): s != nil && s.Name != nil && (s.Program != nil ==> WFNode(iface(s.Program))) ==> WFNode(iface(s))
+//@ axiom wfReserveStmtI(s *ReserveStmt): s != nil && s.Name != nil && (s.Insert != nil ==> WFNode(iface(s.Insert))) ==> WFNode(iface(s))
+//@ axiom wfInsertStmtI(s *InsertStmt): s != nil && (s.Block != nil ==> WFNode(iface(s.Block))) && (s.Argument != nil ==> WFN(s.Argument)) ==> WFNode(iface(s))
+//@ axiom wfForStmtI(s *ForStmt): s != nil && (s.Init != nil ==> WFN(s.Init)) && (s.Condition != nil ==> WFN(s.Condition)) && (s.Post != nil ==> WFN(s.Post)) && s.Block != nil && WFNode(iface(s.Block)) && (s.Alternative != nil ==> WFNode(iface(s.Alternative))) ==> WFNode(iface(s))
+//@ axiom wfEachStmtI(s *EachStmt): s != nil && s.Var != nil && WFN(s.Array) && s.Block != nil && WFNode(iface(s.Block)) && (s.Alternative != nil ==> WFNode(iface(s.Alternative))) ==> WFNode(iface(s))
+//@ axiom wfBreakIfStmtI(s *BreakIfStmt): s != nil && WFN(s.Condition) ==> WFNode(iface(s))
+//@ axiom wfContinueIfStmtI(s *ContinueIfStmt): s != nil && WFN(s.Condition) ==> WFNode(iface(s))
+//@ axiom wfComponentStmtI(s *ComponentStmt): s != nil && s.Name != nil && WFNode(iface(s.Name)) && (s.Block != nil ==> WFNode(iface(s.Block))) && (s.Argument != nil ==> WFNode(iface(s.Argument))) ==> WFNode(iface(s))
+//@ axiom wfSlotStmtI(s *SlotStmt): s != nil && s.Name != nil && (s.Body != nil ==> WFNode(iface(s.Body))) ==> WFNode(iface(s))
+//@ axiom wfDumpStmtI(s *DumpStmt): s != nil && forall(k, 0, len(s.Arguments), WFN(s.Arguments[k])) ==> WFNode(iface(s))
+//@ axiom wfIndexExpI(x *IndexExp): x != nil && WFN(x.Left) && WFN(x.Index) ==> WFNode(iface(x))
+//@ axiom wfDotExpI(x *DotExp): x != nil && WFN(x.Left) && x.Key != nil && istype(x.Key, *Identifier) && refof(x.Key) != 0 ==> WFNode(iface(x))
+//@ axiom wfPrefixExpI(x *PrefixExp): x != nil && WFN(x.Right) ==> WFNode(iface(x))
+//@ axiom wfTernaryExpI(x *TernaryExp): x != nil && WFN(x.Condition) && WFN(x.Consequence) && WFN(x.Alternative) ==> WFNode(iface(x))
+//@ axiom wfInfixExpI(x *InfixExp): x != nil && WFN(x.Left) && WFN(x.Right) ==> WFNode(iface(x))
+//@ axiom wfPostfixExpI(x *PostfixExp): x != nil && WFN(x.Left) ==> WFNode(iface(x))
+//@ axiom wfCallExpI(x *CallExp): x != nil && WFN(x.Receiver) && x.Function != nil && forall(k, 0, len(x.Arguments), WFN(x.Arguments[k])) ==> WFNode(iface(x))
+//@ axiom wfObjectLiteralI(x *ObjectLiteral): x != nil && forallkey(x.Pairs, k, WFN(x.Pairs[k])) ==> WFNode(iface(x))
+//@ axiom wfArrayLiteralI(x *ArrayLiteral): x != nil && forall(k, 0, len(x.Elements), WFN(x.Elements[k])) ==> WFNode(iface(x))
+//@ axiom wfIdentifierI(x *Identifier): x != nil ==> WFNode(iface(x))
+//@ axiom wfIntegerLiteralI(x *IntegerLiteral): x != nil ==> WFNode(iface(x))
+//@ axiom wfFloatLiteralI(x *FloatLiteral): x != nil ==> WFNode(iface(x))
+//@ axiom wfStringLiteralI(x *StringLiteral): x != nil ==> WFNode(iface(x))
+//@ axiom wfBooleanLiteralI(x *BooleanLiteral): x != nil ==> WFNode(iface(x))
+//@ axiom wfNilLiteralI(x *NilLiteral): x != nil ==> WFNode(iface(x))
+//@ axiom wfHTMLStmtI(x *HTMLStmt): x != nil ==> WFNode(iface(x))
+//@ axiom wfBreakStmtI(x *BreakStmt): x != nil ==> WFNode(iface(x))
+//@ axiom wfContinueStmtI(x *ContinueStmt): x != nil ==> WFNode(iface(x))
+
 // C13: the line a node reports is the 1-based line on which its own token ends
 //@ spec lineOfNode(n Node) uint = ite(istype(n, *ArrayLiteral), as(n, *ArrayLiteral).Token.Pos.EndLine + 1, ite(istype(n, *AssignStmt), as(n, *AssignStmt).Token.Pos.EndLine + 1, ite(istype(n, *BlockStmt), as(n, *BlockStmt).Token.Pos.EndLine + 1, ite(istype(n, *BooleanLiteral), as(n, *BooleanLiteral).Token.Pos.EndLine + 1, ite(istype(n, *BreakIfStmt), as(n, *BreakIfStmt).Token.Pos.EndLine + 1, ite(istype(n, *BreakStmt), as(n, *BreakStmt).Token.Pos.EndLine + 1, ite(istype(n, *CallExp), as(n, *CallExp).Token.Pos.EndLine + 1, ite(istype(n, *ComponentStmt), as(n, *ComponentStmt).Token.Pos.EndLine + 1, ite(istype(n, *ContinueIfStmt), as(n, *ContinueIfStmt).Token.Pos.EndLine + 1, ite(istype(n, *ContinueStmt), as(n, *ContinueStmt).Token.Pos.EndLine + 1, ite(istype(n, *DotExp), as(n, *DotExp).Token.Pos.EndLine + 1, ite(istype(n, *DumpStmt), as(n, *DumpStmt).Token.Pos.EndLine + 1, ite(istype(n, *EachStmt), as(n, *EachStmt).Token.Pos.EndLine + 1, ite(istype(n, *ElseIfStmt), as(n, *ElseIfStmt).Token.Pos.EndLine + 1, ite(istype(n, *ExpressionStmt), as(n, *ExpressionStmt).Token.Pos.EndLine + 1, ite(istype(n, *FloatLiteral), as(n, *FloatLiteral).Token.Pos.EndLine + 1, ite(istype(n, *ForStmt), as(n, *ForStmt).Token.Pos.EndLine + 1, ite(istype(n, *HTMLStmt), as(n, *HTMLStmt).Token.Pos.EndLine + 1, ite(istype(n, *Identifier), as(n, *Identifier).Token.Pos.EndLine + 1, ite(istype(n, *IfStmt), as(n, *IfStmt).Token.Pos.EndLine + 1, ite(istype(n, *IndexExp), as(n, *IndexExp).Token.Pos.EndLine + 1, ite(istype(n, *InfixExp), as(n, *InfixExp).Token.Pos.EndLine + 1, ite(istype(n, *InsertStmt), as(n, *InsertStmt).Token.Pos.EndLine + 1, ite(istype(n, *IntegerLiteral), as(n, *IntegerLiteral).Token.Pos.EndLine + 1, ite(istype(n, *NilLiteral), as(n, *NilLiteral).Token.Pos.EndLine + 1, ite(istype(n, *ObjectLiteral), as(n, *ObjectLiteral).Token.Pos.EndLine + 1, ite(istype(n, *PostfixExp), as(n, *PostfixExp).Token.Pos.EndLine + 1, ite(istype(n, *PrefixExp), as(n, *PrefixExp).Token.Pos.EndLine + 1, ite(istype(n, *Program), as(n, *Program).Token.Pos.EndLine + 1, ite(istype(n, *ReserveStmt), as(n, *ReserveStmt).Token.Pos.EndLine + 1, ite(istype(n, *SlotStmt), as(n, *SlotStmt).Token.Pos.EndLine + 1, ite(istype(n, *StringLiteral), as(n, *StringLiteral).Token.Pos.EndLine + 1, ite(istype(n, *TernaryExp), as(n, *TernaryExp).Token.Pos.EndLine + 1, ite(istype(n, *UseStmt), as(n, *UseStmt).Token.Pos.EndLine + 1, 0))))))))))))))))))))))))))))))))))
 //@ family ast.Node.Line(this)
